@@ -45,6 +45,10 @@ try:
 except Exception:  # the queue-level theorems stand on their own
     pass
 
+# bundle M (tools/props/math_thm_M.py): MathUtilities.h + what the bounded constructor makes of a requested capacity, attached to C01
+import props.math_thm_M as _mM
+_mM.attach("C01", THEOREMS["C01"], MODULES["C01"], OBLIG_BY_PROP["C01"])
+
 # which ORACLE lines belong to which property
 C09_ORACLES = ("drained-queue-refuses",)
 
@@ -200,6 +204,9 @@ def run(prop, tier):
             if s not in ("-", w):
                 ps["broken"].append("extraction disagrees with run-time order for %s: extracted %s, observed %s" % (nm, w, s))
 
+    if prop == "C01":
+        _mM.stream(ck, prop, tier, ps)   # arithmetic / constructor stream of bundle M (own violations, coverage in ck.cov["math_stream"])
+
     # --- verdicts -----------------------------------------------------------------------------
     if oracle_hits:
         label, ln, tr, i = oracle_hits[0]
@@ -262,6 +269,8 @@ def run(prop, tier):
 
 
 def replay(prop, path):
+    if _mM.is_math_replay(path):
+        return _mM.replay(prop, path)
     if open(path).readline().startswith("# H2 "):
         import props.backend as be
         return be.replay(prop, path)
